@@ -15,6 +15,8 @@ use crate::wmodcoq;
 use std::sync::{Arc, Mutex};
 use walrus::*;
 
+const MARKER: i32 = 24301;
+
 #[derive(Default, Clone, Debug)]
 pub struct Ct { pub pairs: Vec<(u32, usize)>, pub code_section_start: usize, pub ranges: Vec<(usize, usize, usize)>, pub calls: u32 }
 #[derive(Debug)]
@@ -53,13 +55,18 @@ fn n_imp_funcs(a: &AMod) -> usize { a.imports.iter().filter(|i| matches!(i.2, AI
 
 /// positional alignment of the live operators of an input body with the operators of the output body
 /// (nop and dead code dropped, an `else` synthesised for an else-less `if`); None = bodies do not align (C03's business)
-fn align(inp: &amod::ABody, out: &amod::ABody) -> Option<Vec<Option<usize>>> {
+fn is_marker(out: &amod::ABody, j: usize) -> bool {
+    out.ops.get(j).and_then(|o| o.0.as_deref()) == Some(&format!("WOp (W_I32Const ({})%Z)", MARKER)) && out.ops.get(j + 1).map(|o| o.2) == Some("Drop")
+}
+fn align(inp: &amod::ABody, out: &amod::ABody, inserted: &mut Vec<usize>) -> Option<Vec<Option<usize>>> {
     let mask = live_mask(&inp.ops); let mut map = vec![None; inp.ops.len()]; let mut j = 0;
     for (k, o) in inp.ops.iter().enumerate() { if !mask[k] { continue; }
+        while is_marker(out, j) { inserted.push(out.ops[j].1); inserted.push(out.ops[j + 1].1); j += 2; }
         let oj = out.ops.get(j)?;
         if oj.2 == o.2 { map[k] = Some(j); j += 1; }
         else if oj.2 == "Else" && o.2 == "End" && out.ops.get(j + 1).map(|x| x.2) == Some("End") { map[k] = Some(j + 1); j += 2; }
         else { return None; } }
+    while is_marker(out, j) { inserted.push(out.ops[j].1); inserted.push(out.ops[j + 1].1); j += 2; }
     if j != out.ops.len() { return None; }
     Some(map)
 }
@@ -81,12 +88,12 @@ pub fn oracle(name: &str, wasm: &[u8], o: &CtObs, viol: &mut Vec<Json>) {
     if seen != b.code.len() { viol.push(v("function-range-wrong", format!("{} ranges reported for {} code entries", seen, b.code.len()))); }
     // (1) pairs: each location is the input offset of an instruction; the output offset is the first byte of the same instruction
     let nia = n_imp_funcs(&a);
-    let mut expect: std::collections::BTreeMap<u32, usize> = Default::default(); let mut aligned_all = true;
+    let mut expect: std::collections::BTreeMap<u32, usize> = Default::default(); let mut aligned_all = true; let mut inserted: Vec<usize> = vec![];
     for (i, fa) in a.code.iter().enumerate() {
         let id = match o.pm.funcs.get(nia + i) { Some(x) => *x, None => continue };
         let ix = match o.em.funcs.get(&id) { Some(x) => *x as usize, None => continue };   // not emitted
         let fb = match b.code.get(ix.wrapping_sub(nib)) { Some(x) => x, None => continue };
-        match align(fa, fb) { Some(map) => for (k, j) in map.iter().enumerate() { if let Some(j) = j { expect.insert(fa.ops[k].1 as u32, fb.ops[*j].1); } }, None => aligned_all = false }
+        match align(fa, fb, &mut inserted) { Some(map) => for (k, j) in map.iter().enumerate() { if let Some(j) = j { expect.insert(fa.ops[k].1 as u32, fb.ops[*j].1); } }, None => aligned_all = false }
     }
     if !aligned_all { return; }
     let got: std::collections::BTreeMap<u32, usize> = o.ct.pairs.iter().cloned().collect();
@@ -95,10 +102,11 @@ pub fn oracle(name: &str, wasm: &[u8], o: &CtObs, viol: &mut Vec<Json>) {
     for (l, p) in &got { match expect.get(l) { Some(q) if q == p => {}, Some(q) => { n_bad += 1; if first.is_empty() { first = format!("input offset {} is paired with output offset {} but that instruction starts at {}", l, p, q); } }
         None => { n_bad += 1; if first.is_empty() { first = format!("pair ({}, {}) but no emitted instruction comes from input offset {}", l, p, l); } } } }
     for (l, q) in &expect { if !got.contains_key(l) { n_bad += 1; if first.is_empty() { first = format!("the instruction at input offset {} is emitted at {} but appears in no pair", l, q); } } }
+    for (l, p) in &got { if inserted.contains(p) { n_bad += 1; if first.is_empty() { first = format!("pair ({}, {}) points at an instruction that was inserted by the transformation", l, p); } } }
     if n_bad > 0 { viol.push(v("instruction-map-wrong", format!("{} wrong/missing pairs, first: {}", n_bad, first))); }
 }
 
-fn coq_case(wasm: &[u8], o: &CtObs) -> Option<String> {
+fn coq_case(wasm: &[u8], o: &CtObs, gc: bool, edits: &[(usize, usize, usize)]) -> Option<String> {
     let win = wmodcoq::wmod(wasm, true)?;
     let b = amod::decode(&o.out).ok()?; let nib = n_imp_funcs(&b);
     // observed pairs as (loc, (k-th emitted function, ordinal of the operator)); an offset that is no operator start gets ordinal 999999
@@ -111,7 +119,8 @@ fn coq_case(wasm: &[u8], o: &CtObs) -> Option<String> {
     let ranges: Vec<String> = o.ct.ranges.iter().map(|(id, s, e)| format!("({}, ({}, {}))", id, s, e)).collect();
     let _ = nib;
     let ver = format!("[{}]", VERSION.bytes().map(|b| b.to_string()).collect::<Vec<_>>().join(";"));
-    Some(format!("Build_ctcase {} {} [{}] {} [{}] [{}] {}", ver, win, pairs.join("; "), first, sizes.join("; "), ranges.join("; "), o.ct.code_section_start))
+    let ed: Vec<String> = edits.iter().map(|(f, s, p)| format!("({}, {}, {})", f, s, p)).collect();
+    Some(format!("Build_ctcase {} {} {} [{}] [{}] {} [{}] [{}] {}", ver, win, gc, ed.join("; "), pairs.join("; "), first, sizes.join("; "), ranges.join("; "), o.ct.code_section_start))
 }
 
 pub fn main(args: &[String]) {
@@ -133,18 +142,37 @@ pub fn main(args: &[String]) {
     // a module with more than 127 and one with more than 16383 function bodies (the count LEB grows)
     for n in [130usize, 16390] { let mut wat = String::from("(module (func (export \"f\") (result i32) i32.const 7)"); for _ in 0..n { wat.push_str(" (func)"); } wat.push(')'); if let Ok(b) = wat::parse_str(&wat) { inputs.push((format!("many-functions-{}", n), b)); } }
     let (mut n_cases, mut n_pairs, mut n_funcs, mut n_unmodelled) = (0u64, 0u64, 0u64, 0u64);
+    let (mut n_gc, mut n_edit) = (0u64, 0u64);
     for (name, wasm) in &inputs {
         if amod::validate(wasm, feats).is_err() { continue; }
-        let names = r.chance(1, 2);
-        let o = match catch(|| observe_ct(wasm, names, &|_| {})) { Some(Ok(o)) => o, Some(Err(_)) => continue,
-            None => { viol.push(Json::obj(vec![("class", Json::s("emit-panics-with-code-transform")), ("props", Json::s("C11 C02")), ("what", Json::s(format!("{}: parse/emit panics with preserve_code_transform", name))), ("input", Json::s(crate::c03::hex(wasm)))])); continue; } };
-        oracle(name, wasm, &o, &mut viol);
-        n_pairs += o.ct.pairs.len() as u64; n_funcs += o.ct.ranges.len() as u64;
-        if name.starts_with("many-functions-16") { continue; }   // too large a term for the Coq side; covered by the oracle
-        match coq_case(wasm, &o) { Some(line) => { if samples.len() < 2 && line.len() < 1500 { samples.push(line.clone()); } w.push(&line); n_cases += 1; } None => n_unmodelled += 1 }
+        // variants: unchanged; GC before emitting; marker instructions inserted at random places through the builder API
+        let big = name.starts_with("many-functions-");
+        let variants: Vec<u8> = if big { vec![0] } else { vec![0, 1, 2] };
+        for variant in variants {
+            let names = r.chance(1, 2);
+            let seed_edit = r.below(1 << 30);
+            let edits: std::cell::RefCell<Vec<(usize, usize, usize)>> = Default::default();
+            let o = match catch(|| observe_ct(wasm, names, &|m: &mut Module| {
+                    if variant == 1 { passes::gc::run(m); }
+                    if variant == 2 { let mut rr = Rng::new(seed_edit as u64); let ids: Vec<FunctionId> = m.funcs.iter_local().map(|(id, _)| id).collect();
+                        for fid in ids { let lf = m.funcs.get_mut(fid).kind.unwrap_local_mut(); let seqs = irdump::seq_ids(lf); let mut keys: Vec<_> = seqs.keys().cloned().collect(); keys.sort();
+                            for _ in 0..(1 + rr.usize(3)) { let sk = *rr.pick(&keys); let sid = seqs[&sk]; let len = lf.block(sid).instrs.len(); let pos = rr.usize(len + 1);
+                                let mut b = lf.builder_mut().instr_seq(sid); b.instr_at(pos, ir::Const { value: ir::Value::I32(MARKER) }); b.instr_at(pos + 1, ir::Drop {});
+                                edits.borrow_mut().push((fid.index(), sk, pos)); } } }
+                })) { Some(Ok(o)) => o, Some(Err(_)) => continue,
+                None => { viol.push(Json::obj(vec![("class", Json::s("emit-panics-with-code-transform")), ("props", Json::s("C11 C02")), ("what", Json::s(format!("{}: parse/emit panics with preserve_code_transform (variant {})", name, variant))), ("input", Json::s(crate::c03::hex(wasm)))])); continue; } };
+            if variant == 2 && amod::validate(&o.out, feats).is_err() { continue; }   // a marker landed in a place where it breaks typing (e.g. after a terminator of a typed block): not a well-formed edit
+            let vname = format!("{}{}", name, ["", " (after gc)", " (markers inserted)"][variant as usize]);
+            oracle(&vname, wasm, &o, &mut viol);
+            if variant == 1 { n_gc += 1; } if variant == 2 { n_edit += 1; }
+            n_pairs += o.ct.pairs.len() as u64; n_funcs += o.ct.ranges.len() as u64;
+            if name.starts_with("many-functions-16") { continue; }   // too large a term for the Coq side; covered by the oracle
+            let ed: Vec<(usize, usize, usize)> = edits.borrow().clone();
+            match coq_case(wasm, &o, variant == 1, &ed) { Some(line) => { if samples.len() < 2 && line.len() < 1500 { samples.push(line.clone()); } w.push(&line); n_cases += 1; } None => n_unmodelled += 1 }
+        }
     }
     w.finish();
-    let meta = Json::obj(vec![("cases", Json::n(n_cases as f64)), ("inputs", Json::u(inputs.len())), ("corpus", Json::u(n_corpus)), ("fixtures", Json::u(n_fix)), ("generated", Json::u(n_gen)), ("pairs_checked", Json::n(n_pairs as f64)), ("function_ranges_checked", Json::n(n_funcs as f64)),
+    let meta = Json::obj(vec![("cases", Json::n(n_cases as f64)), ("inputs", Json::u(inputs.len())), ("corpus", Json::u(n_corpus)), ("fixtures", Json::u(n_fix)), ("generated", Json::u(n_gen)), ("after_gc", Json::n(n_gc as f64)), ("with_inserted_instructions", Json::n(n_edit as f64)), ("pairs_checked", Json::n(n_pairs as f64)), ("function_ranges_checked", Json::n(n_funcs as f64)),
         ("outside_modelled_universe", Json::n(n_unmodelled as f64)), ("samples", Json::Arr(samples.into_iter().map(|s| Json::Str(s.chars().take(900).collect())).collect())), ("oracle_violations", Json::Arr(viol))]);
     std::fs::write(format!("{}/meta.json", out_dir), meta.to_string()).unwrap();
 }
